@@ -204,6 +204,8 @@ class BasisTree(Tree):
         # d means physical bond
         # `contract_label` decides whether we do contraction for a particular basis
         assert len(basis_list) > 1
+        # the virtual basis sets need as many quantum number components as the physical ones
+        dummy_qn = np.zeros((1, basis_list[0].sigmaqn.shape[1]), dtype=int)
 
         # prepare elementary nodes
         elementary_nodes: List[TreeNodeBasis] = []
@@ -236,7 +238,7 @@ class BasisTree(Tree):
         # recursive tree construction
         def recursion(elementary_nodes_: List[TreeNodeBasis]) -> TreeNodeBasis:
             nonlocal dummy_i
-            node = TreeNodeBasis([BasisDummy((dummy_label, dummy_i))])
+            node = TreeNodeBasis([BasisDummy((dummy_label, dummy_i), sigmaqn=dummy_qn)])
             dummy_i += 1
             if len(elementary_nodes_) <= tree_order:
                 node.add_child(elementary_nodes_)
@@ -292,14 +294,16 @@ class BasisTree(Tree):
                 return
             node1 = TreeNodeBasis(basis_list_[:1])
             parent.add_child(node1)
-            node2 = TreeNodeBasis([BasisDummy((t3ns_label, dummy_i))])
+            node2 = TreeNodeBasis([BasisDummy((t3ns_label, dummy_i), sigmaqn=dummy_qn)])
             dummy_i += 1
             node1.add_child(node2)
             for partition_ in approximate_partition(basis_list_[1:], 2):
                 recursion(node2, partition_)
 
         dummy_i = 0
-        root = TreeNodeBasis([BasisDummy((t3ns_label, dummy_i))])
+        # the virtual basis sets need as many quantum number components as the physical ones
+        dummy_qn = np.zeros((1, basis_list[0].sigmaqn.shape[1]), dtype=int)
+        root = TreeNodeBasis([BasisDummy((t3ns_label, dummy_i), sigmaqn=dummy_qn)])
         dummy_i += 1
         for partition in approximate_partition(basis_list, 3):
             recursion(root, partition)
